@@ -1,7 +1,7 @@
 SPECIFICATION Spec
 CONSTANTS
-  Callers = {"a","b","c"}
-  TwoWrites = {"a","b"}
+  Callers = {"a","b","c","d"}
+  TwoWrites = {"a"}
   AtomicNextId = TRUE
   SendLock = TRUE
   DeleteOnGet = TRUE
@@ -9,10 +9,9 @@ CONSTANTS
   RefuseAfterClosed = TRUE
   SendErrDelivered = TRUE
   AllowRdFail = TRUE
-  AllowWrFail = TRUE
-  AllowCancel = FALSE
+  AllowWrFail = FALSE
+  AllowCancel = TRUE
   ChanCap1 = TRUE
   KeepSlotOnCancel = TRUE
-INVARIANTS Inv_C03_OwnReply Inv_C03_DistinctIds Inv_C03_Framing Inv_C04_NotifiedOnce
-PROPERTIES Live_AllReturn
+INVARIANTS Inv_C03_OwnReply Inv_C03_DistinctIds Inv_C03_Framing Inv_C04_NotifiedOnce Inv_C03_NoSpuriousTeardown
 CHECK_DEADLOCK TRUE
